@@ -782,6 +782,7 @@ func vfC11ClusterCase(env *vfEnv, part *vfPart, i int) {
 	part.Mark("cluster_cases", h)
 	if c.fail == "" {
 		part.Mark("cluster_nontrivial", h)
+		part.Mark("nontrivial", h) // the set the merged C11 evidence counts
 		part.Add("cluster_scenarios_completed", 1)
 	}
 	part.Sample(5, map[string]interface{}{"stage": "cluster", "case": i, "log": c.log})
